@@ -486,7 +486,7 @@ func (r *runner) exec(i int, s step) bool {
 		case "cut":
 			w.px.cut()
 		}
-		if !w.waitDisconnected(2500 * time.Millisecond) {
+		if !w.waitDisconnected(4 * time.Second) {
 			errb := gen.ErrNodeTerminated
 			if nw := w.b.Network(); nw != nil {
 				_, errb = nw.Node(w.a.Name())
@@ -497,12 +497,12 @@ func (r *runner) exec(i int, s step) bool {
 				if rn, err := w.a.Network().Node(w.bname); err == nil {
 					rn.Disconnect()
 				}
-				if !w.waitDisconnected(2500 * time.Millisecond) {
+				if !w.waitDisconnected(4 * time.Second) {
 					r.fail("step %d: A still holds the connection after Disconnect", i)
 					return false
 				}
 			} else {
-				r.fail("step %d: fault %s: B dropped the connection (B sees A: %v) but A still holds it after 2.5 s: the loss is never detected, nobody is notified", i, s.Fault, errb == nil)
+				r.fail("step %d: fault %s: B dropped the connection (B sees A: %v) but A still holds it after 4 s: the loss is never detected, nobody is notified", i, s.Fault, errb == nil)
 				return false
 			}
 		}
@@ -771,8 +771,8 @@ func genInflight(r *rand.Rand) ncase {
 	return c
 }
 
-func generate(n int, known map[string]bool) []ncase {
-	r := util.Rng(141)
+func generate(n int, known map[string]bool, stream int64) []ncase {
+	r := util.Rng(141 + 1000*stream)
 	var cases []ncase
 	// fixed corpus first: one of each kind of fault with every kind of target
 	for _, f := range []string{"stop", "stopforce", "disc_a", "disc_b", "cut"} {
@@ -807,7 +807,7 @@ func generate(n int, known map[string]bool) []ncase {
 
 // ---- driver -----------------------------------------------------------------------------------------------
 
-func runHist(n int, out, replay, knownTags string, par int) {
+func runHist(n int, out, replay, knownTags string, par int, stream int64) {
 	gen.DefaultRequestTimeout = 1 // seconds: Link/Monitor requests whose answer never comes
 	o := util.NewOut("netfail.hist")
 	known := map[string]bool{}
@@ -833,7 +833,7 @@ func runHist(n int, out, replay, knownTags string, par int) {
 		}
 		cases = []ncase{c}
 	} else {
-		cases = generate(n, known)
+		cases = generate(n, known, stream)
 	}
 	results := make([]*result, len(cases))
 	var wg sync.WaitGroup
